@@ -159,4 +159,8 @@ def streams(tier, rng):
         c, i = make(rng, False, nullcb=True)
         ncases.append(c)
         ninfo[c] = i
-    yield {'name': 'dispatch-null-callback', 'cases': ncases, 'model': False, 'oracle': oracle_factory(ninfo), 'nontrivial': lambda c, o: c if ' NULL' in c and o.count(' H') + o.count(' E-113') >= 1 else None}
+    def nproject(case, out):
+        # the model runs an entry without callback as a handler that does nothing; its handler line is not an observation
+        nulls = set('H%d:' % int(p.split(' ')[1]) for p in case.split('|') if p.startswith('C ') and p.endswith(' NULL'))
+        return ' '.join(t for t in project(case, out).split(' ') if not any(t.startswith(n) for n in nulls))
+    yield {'name': 'dispatch-null-callback', 'cases': ncases, 'model': True, 'project': nproject, 'oracle': oracle_factory(ninfo), 'nontrivial': lambda c, o: c if ' NULL' in c and o.count(' H') + o.count(' E-113') >= 1 else None}
